@@ -7,7 +7,8 @@
 // an LSEP skipped as white space is counted as a column, fCurLine is not incremented (all later line numbers of the
 // entity are too small) and getSpaces hands U+2028 to the caller instead of #xA.
 //
-// Found by unit rdr_skippedSpace (also rdr_skipSpaces / rdr_getSpaces): obligation "C03 line"
+// Found by units rdr_skippedSpace (obligation "C03 line", "C03 column") and rdr_getSpaces (loop invariant: every delivered
+// character is what 2.11 delivers for a white-space character):
 //   fCurLine == SPEC_EOL_LINE(old(fCurLine), c, ext, fNEL)   counterexample c = 0x2028, WS[c] = 1, fNEL = true, external.
 //
 // build: g++ -I/repo/src -I/repo/_build/src repro.cpp /repo/_build/src/libxerces-c-4.0.so -Wl,-rpath,/repo/_build/src -o repro
@@ -15,12 +16,35 @@
 #include <xercesc/parsers/SAXParser.hpp>
 #include <xercesc/sax/HandlerBase.hpp>
 #include <xercesc/framework/MemBufInputSource.hpp>
+#include <xercesc/framework/XMLDocumentHandler.hpp>
+#include <xercesc/internal/XMLScanner.hpp>
+#include <xercesc/internal/XMLScannerResolver.hpp>
+#include <xercesc/validators/common/GrammarResolver.hpp>
+#include <xercesc/validators/DTD/DTDValidator.hpp>
 #include <string>
 #include <cstdio>
 using namespace xercesc;
 struct H : HandlerBase {
   unsigned long line = 0, col = 0;
   void fatalError(const SAXParseException& e) override { if (!line) { line = e.getLineNumber(); col = e.getColumnNumber(); } }
+};
+// white space outside the root element is collected by getSpaces and handed to XMLDocumentHandler::ignorableWhitespace; SAXParser
+// drops it, so the scanner is driven directly here (exactly what SAXParser does internally)
+struct Adv : XMLDocumentHandler {
+  std::string ws;
+  void ignorableWhitespace(const XMLCh* const chars, const XMLSize_t length, const bool) override
+  { for (XMLSize_t i = 0; i < length; i++) { char b[8]; snprintf(b, sizeof b, " %04X", (unsigned)chars[i]); ws += b; } }
+  void docCharacters(const XMLCh* const, const XMLSize_t, const bool) override {}
+  void docComment(const XMLCh* const) override {}
+  void docPI(const XMLCh* const, const XMLCh* const) override {}
+  void endDocument() override {}
+  void endElement(const XMLElementDecl&, const unsigned int, const bool, const XMLCh* const) override {}
+  void endEntityReference(const XMLEntityDecl&) override {}
+  void resetDocument() override {}
+  void startDocument() override {}
+  void startElement(const XMLElementDecl&, const unsigned int, const XMLCh* const, const RefVectorOf<XMLAttr>&, const XMLSize_t, const bool, const bool) override {}
+  void startEntityReference(const XMLEntityDecl&) override {}
+  void XMLDecl(const XMLCh* const, const XMLCh* const, const XMLCh* const, const XMLCh* const) override {}
 };
 static void errpos(const std::string& doc, unsigned long& l, unsigned long& c) {
   SAXParser p; H h; p.setDocumentHandler(&h); p.setErrorHandler(&h);
@@ -38,6 +62,24 @@ int main() {
     printf("%s: error reported at line %lu column %lu\n", i == 0 ? "3 x LF  " : i == 1 ? "3 x NEL " : "3 x LSEP", l[i], c[i]);
   }
   int bad = (l[2] != l[0]) || (c[2] != c[0]);
+  // white space in the prolog is collected by getSpaces and handed to ignorableWhitespace(): 2.11 says the application sees #xA
+  std::string seen[2];
+  for (int i = 0; i < 2; i++) {
+    std::string doc = std::string("<?xml version='1.1' encoding='UTF-8'?>") + (i == 0 ? "\xC2\x85" : "\xE2\x80\xA8") + "<a/>";
+    Adv adv;
+    MemBufInputSource src((const XMLByte*)doc.data(), doc.size(), "mem");
+    {
+      GrammarResolver* gr = new GrammarResolver(0);
+      XMLScanner* sc = XMLScannerResolver::getDefaultScanner(new DTDValidator(), gr);
+      sc->setURIStringPool(gr->getStringPool());
+      sc->setDocHandler(&adv);
+      try { sc->scanDocument(src); } catch (...) {}
+      delete sc; delete gr;
+    }
+    seen[i] = adv.ws;
+    printf("prolog white space %s delivered as:%s  (must be 000A)\n", i == 0 ? "NEL " : "LSEP", adv.ws.c_str());
+  }
+  bad |= (seen[1] != " 000A");
   puts(bad ? "DEFECT REPRODUCED: U+2028 in an XML 1.1 external entity is not counted as a line end when skipped as white space"
            : "ok (all three agree)");
   XMLPlatformUtils::Terminate();
